@@ -7,7 +7,7 @@ from vlib import *
 import artgen
 
 PROPS = {
-    'C01': ['Properties/Properties_C01.v'],
+    'C01': ['Properties/Properties_C01.v', 'Properties/Properties_C01b.v'],
     'C02': ['Properties/Properties_C02.v'],
     'C10': ['Properties/Properties_C10.v'],
 }
@@ -113,7 +113,8 @@ def check(pid, tier, replay=None):
     ]
     have_props = all(os.path.exists(os.path.join(COQ, f)) for f in PROPS[pid])
     if have_props:
-        proof_stage(res, ['sizes'] if False else [], PROPS[pid], pid)
+        # C01: the key-prefix word arithmetic is regenerated from art_internal_impl.hpp and bridged to the model's list functions
+        proof_stage(res, ['prefix'] if pid == 'C01' else [], PROPS[pid], pid)
     else:
         res.proof_ok = True
         res.broken = []
